@@ -130,11 +130,13 @@ Definition seek_indexed (pinned : bool) (pages : chunk) (s : state) (k : nat) : 
       end
   end.
 
-(** FilePages.SeekToRow without an offset index (file.go:1559-1573): rewind to
-    the first data page; f.index restarts at 1 when the chunk has a dictionary
-    page ([dict]). *)
-Definition seek_noindex (dict : bool) (s : state) (k : nat) : state * out :=
-  (mk (if dict then 1 else 0) 0 k (last s) false, SeekOk).
+(** FilePages.SeekToRow without an offset index (file.go:1559-1572): rewind to
+    the first data page and restart the page counter at 0 ([dict1 = false]).
+    Before the repair 5c1fea6 the counter restarted at 1 when the chunk had a
+    dictionary page, although it counts data pages everywhere else:
+    [dict1 = true] is that pinned behaviour on a chunk with a dictionary page. *)
+Definition seek_noindex (dict1 : bool) (s : state) (k : nat) : state * out :=
+  (mk (if dict1 then 1 else 0) 0 k (last s) false, SeekOk).
 
 (** The three machines. *)
 Definition step_indexed (pages : chunk) (s : state) (o : op) : state * out :=
@@ -149,10 +151,10 @@ Definition step_pinned (pages : chunk) (s : state) (o : op) : state * out :=
   | SeekToRow k => seek_indexed true pages s k
   end.
 
-Definition step_noindex (dict : bool) (pages : chunk) (s : state) (o : op) : state * out :=
+Definition step_noindex (dict1 : bool) (pages : chunk) (s : state) (o : op) : state * out :=
   match o with
   | ReadPage => read_page pages s
-  | SeekToRow k => seek_noindex dict s k
+  | SeekToRow k => seek_noindex dict1 s k
   end.
 
 (** A file opened with SkipPageIndex loads the offset index of a chunk the
@@ -161,12 +163,12 @@ Definition step_noindex (dict : bool) (pages : chunk) (s : state) (o : op) : sta
     from the index-less to the indexed seek in the middle of a history. *)
 Inductive lop := Op (o : op) | LoadIndex.
 
-Definition step_lazy (dict : bool) (pages : chunk) (sl : state * bool) (o : lop) : (state * bool) * out :=
+Definition step_lazy (dict1 : bool) (pages : chunk) (sl : state * bool) (o : lop) : (state * bool) * out :=
   let '(s, loaded) := sl in
   match o with
   | LoadIndex => ((s, true), Done)
   | Op o =>
-      let '(s', r) := if loaded then step_indexed pages s o else step_noindex dict pages s o in
+      let '(s', r) := if loaded then step_indexed pages s o else step_noindex dict1 pages s o in
       ((s', loaded), r)
   end.
 
@@ -181,9 +183,15 @@ Definition run_indexed (pages : chunk) (ops : list op) : list out :=
   run (step_indexed pages) init ops.
 Definition run_pinned (pages : chunk) (ops : list op) : list out :=
   run (step_pinned pages) init ops.
-Definition run_noindex (dict : bool) (pages : chunk) (ops : list op) : list out :=
+(* the current code *)
+Definition run_noindex (pages : chunk) (ops : list op) : list out :=
+  run (step_noindex false pages) init ops.
+Definition run_lazy (pages : chunk) (ops : list lop) : list out :=
+  run (step_lazy false pages) (init, false) ops.
+(* before 5c1fea6; [dict]: the chunk has a dictionary page *)
+Definition run_noindex_pinned (dict : bool) (pages : chunk) (ops : list op) : list out :=
   run (step_noindex dict pages) init ops.
-Definition run_lazy (dict : bool) (pages : chunk) (ops : list lop) : list out :=
+Definition run_lazy_pinned (dict : bool) (pages : chunk) (ops : list lop) : list out :=
   run (step_lazy dict pages) (init, false) ops.
 
 (** * Batch row reader over one column (rowGroupRows + columnChunkValueReader).
@@ -272,10 +280,10 @@ Section RowsReader.
     | _ => (r1, e)
     end.
 
-  (** rowGroupRows.Reset (row_group.go:236-241): every column seeks to row 0
-      (errors ignored) and drops its buffered page.  The Go code leaves
-      r.rowIndex as it is ([clears = false]); [clears = true] is the reader that
-      also forgets its row index (rowIndex = -1). *)
+  (** rowGroupRows.Reset (row_group.go:243-251): every column seeks to row 0
+      (errors ignored) and drops its buffered page, and the reader forgets its
+      row index (r.rowIndex = -1, [clears = true]).  Before the repair 3b258db
+      r.rowIndex was left as it was ([clears = false], the pinned behaviour). *)
   Definition rr_reset (clears : bool) (r : rstate) : rstate * rout :=
     let '(c', _) := cstep (cur r) (SeekToRow 0) in
     (rmk c' 0 0 (if clears then None else row_index r), RDone).
@@ -288,7 +296,15 @@ Section RowsReader.
     end.
 End RowsReader.
 
-Definition run_rows_indexed (clears : bool) (pages : chunk) (ops : list rop) : list rout :=
+(* the current code *)
+Definition run_rows_indexed (pages : chunk) (ops : list rop) : list rout :=
+  run (rr_step (step_indexed pages) (S (length pages)) true) rinit ops.
+Definition run_rows_noindex (pages : chunk) (ops : list rop) : list rout :=
+  run (rr_step (step_noindex false pages) (S (length pages)) true) rinit ops.
+(* [clears = false]: Reset before 3b258db; [dict1 = true]: index-less seek
+   before 5c1fea6 on a chunk with a dictionary page *)
+Definition run_rows_indexed_gen (clears : bool) (pages : chunk) (ops : list rop) : list rout :=
   run (rr_step (step_indexed pages) (S (length pages)) clears) rinit ops.
-Definition run_rows_noindex (clears : bool) (dict : bool) (pages : chunk) (ops : list rop) : list rout :=
-  run (rr_step (step_noindex dict pages) (S (length pages)) clears) rinit ops.
+Definition run_rows_noindex_gen (clears dict1 : bool) (pages : chunk) (ops : list rop) : list rout :=
+  run (rr_step (step_noindex dict1 pages) (S (length pages)) clears) rinit ops.
+Definition run_rows_indexed_pinned : chunk -> list rop -> list rout := run_rows_indexed_gen false.
